@@ -19,6 +19,10 @@ def collapse : List (Expr × String × Nat) → Expr → Expr
   | (l, o, _) :: st, top => collapse st (.compute l o top)
   | [], top => top
 
+/-- `ASTSingleSelectStatement.set_with_clauses(ASTWithClause.empty())` -/
+def setWiths : Select → Select
+  | .mk _ dist cols fr lats js wh gb hv ob sb db cb lm => .mk (some []) dist cols fr lats js wh gb hv ob sb db cb lm
+
 /-- `_get_alias_name` -/
 def getAliasName (ts : List Tok) : R String :=
   match ts with
@@ -78,12 +82,12 @@ def pAlias (ts : List Tok) : R (Option String) :=
 /-- _parse_table_name_expression -/
 def pTableName (ts : List Tok) : R TableRef :=
   match ts with
-  | [] => .error (.py .IndexError)
+  | [] => .error .parse
   | n0 :: r0 =>
     if !n0.has NAME then .error .parse
     else if searchStr r0 "." then
       (match r0.drop 1 with
-       | [] => .error (.py .IndexError)
+       | [] => .error .parse
        | n2 :: r2 => .ok (.table (some (unifyName n0.src)) (unifyName n2.src), r2))
     else match splitName n0.src with
       | .ok (sch, t) => .ok (.table sch t, r0)
@@ -161,7 +165,7 @@ def pElement (d : Gen.D) : Nat → List Tok → R Expr
   | 0, _ => .error .fuel
   | f+1, ts =>
     match ts with
-    | [] => .error (.py .IndexError)
+    | [] => .error .parse
     | n0 :: r0 =>
       if n0.has LITERAL then .ok (.literal n0.src, r0)
       else if n0.has PAREN then pParen d f n0 r0
@@ -189,7 +193,7 @@ def pQualified (d : Gen.D) : Nat → Tok → List Tok → List Tok → R Expr
   | 0, _, _, _ => .error .fuel
   | f+1, n0, r1, ts =>
     match r1 with
-    | [] => .error (.py .IndexError)
+    | [] => .error .parse
     | n2 :: r2 =>
       if n2.has NAME then
         (if searchMark r2 PAREN then pFuncIdx d f ts
@@ -224,11 +228,11 @@ def pIfCall (d : Gen.D) : Nat → List Tok → R Expr
   | 0, _ => .error .fuel
   | f+1, r =>
     match r with
-    | [] => .error (.py .IndexError)
+    | [] => .error .parse
     | g :: r' =>
-      match pFirstDiscard d f g.children with
+      match pFirstArg d f g.children with
       | .error e => .error e
-      | .ok r2 => match closed (pArgs d f [] r2) with
+      | .ok (acc, r2) => match closed (pArgs d f acc r2) with
         | .ok ps => .ok (.func none "IF" ps, r') | .error e => .error e
 def pFirstDiscard (d : Gen.D) : Nat → List Tok → Except Err (List Tok)
   | 0, _ => .error .fuel
@@ -240,7 +244,7 @@ def pCall (d : Gen.D) : Nat → Option String → String → List Tok → R Expr
   | 0, _, _, _ => .error .fuel
   | f+1, schema, name, r =>
     match r with
-    | [] => .error (.py .IndexError)
+    | [] => .error .parse
     | g :: r' =>
       match pFirstArg d f (callPrep name g).2.2 with
       | .error e => .error e
@@ -375,7 +379,7 @@ def pInBody (d : Gen.D) : Nat → Bool → Expr → List Tok → Except Err (Opt
   | 0, _, _, _ => .error .fuel
   | f+1, isNot, bv, r2 =>
     match r2 with
-    | [] => .error (.py .AttributeError)
+    | [] => .error .parse
     | g :: r3 =>
       if startsSelect g.children then
         (match pSubQuery d f r2 with
@@ -459,14 +463,14 @@ def pSubQuery (d : Gen.D) : Nat → List Tok → R Expr
   | 0, _ => .error .fuel
   | f+1, ts =>
     match ts with
-    | [] => .error (.py .IndexError)
+    | [] => .error .parse
     | g :: r => match closed (pSelectStmt d f none g.children) with
       | .ok q => .ok (.subQuery q, r) | .error e => .error e
 def pCast (d : Gen.D) : Nat → List Tok → R Expr
   | 0, _ => .error .fuel
   | f+1, ts =>
     match ts with
-    | [] => .error (.py .IndexError)
+    | [] => .error .parse
     | g :: r => match pCompute d f g.children with
       | .error e => .error e
       | .ok (e, r1) => match matchSeq r1 ["AS"] with
@@ -476,7 +480,7 @@ def pExtract (d : Gen.D) : Nat → List Tok → R Expr
   | 0, _ => .error .fuel
   | f+1, ts =>
     match ts with
-    | [] => .error (.py .IndexError)
+    | [] => .error .parse
     | g :: r => match pCompute d f g.children with
       | .error e => .error e
       | .ok (n, r1) => match matchSeq r1 ["FROM"] with
@@ -491,7 +495,7 @@ def pWindow (d : Gen.D) : Nat → List Tok → R Expr
     | .ok (fn, r) => match matchSeq r ["OVER"] with
       | .error e => .error e
       | .ok (_, r1) => match r1 with
-        | [] => .error (.py .IndexError)
+        | [] => .error .parse
         | g :: r2 => match pWindowBody d f fn g.children with
           | .ok w => .ok (w, r2) | .error e => .error e
 def pWindowBody (d : Gen.D) : Nat → Expr → List Tok → Except Err Expr
@@ -625,7 +629,7 @@ def pGroupingSets (d : Gen.D) : Nat → List Tok → R (List (List Expr))
   | f+1, ts => match matchSeq ts ["GROUPING", "SETS"] with
     | .error e => .error e
     | .ok (_, r) => match r with
-      | [] => .error (.py .IndexError)
+      | [] => .error .parse
       | g :: r' => match pGroupingElems d f [] (splitBy "," g.children [] []) with
         | .ok gs => .ok (gs, r') | .error e => .error e
 /-- _parse_group_by_clause -/
@@ -658,11 +662,11 @@ def pWithTable (d : Gen.D) : Nat → List Tok → R WithTable
   | 0, _ => .error .fuel
   | f+1, ts =>
     match ts with
-    | [] => .error (.py .IndexError)
+    | [] => .error .parse
     | n :: r => match matchSeq r ["AS"] with
       | .error e => .error e
       | .ok (_, r1) => match r1 with
-        | [] => .error (.py .IndexError)
+        | [] => .error .parse
         | g :: r2 => match closed (pSelectStmt d f (some []) g.children) with
           | .ok q => .ok (.mk (unifyName n.src) q, r2) | .error e => .error e
 def pWithTables (d : Gen.D) : Nat → List WithTable → List Tok → R (List WithTable)
@@ -784,7 +788,7 @@ def pSingle (d : Gen.D) : Nat → List WithTable → List Tok → R Select
   | f+1, withs, ts =>
     if !searchMark ts PAREN then pSelectBody d f withs true [] ts
     else match ts with
-      | [] => .error (.py .IndexError)
+      | [] => .error .parse
       | g :: outer => pSingleParen d f withs outer [g.children] g.children
 /-- the `while inner.search(PAREN): inner = scanner.pop_as_children_scanner()` loop and what follows -/
 def pSingleParen (d : Gen.D) : Nat → List WithTable → List Tok → List (List Tok) → List Tok → R Select
@@ -792,7 +796,7 @@ def pSingleParen (d : Gen.D) : Nat → List WithTable → List Tok → List (Lis
   | f+1, withs, outer, stack, inner =>
     if searchMark inner PAREN then
       (match outer with
-       | [] => .error (.py .IndexError)
+       | [] => .error .parse
        | g :: outer' => pSingleParen d f withs outer' (g.children :: stack) g.children)
     else match pSelectBody d f withs false outer inner with
       | .error e => .error e
@@ -811,7 +815,9 @@ def pSelectStmt (d : Gen.D) : Nat → Option (List WithTable) → List Tok → R
       | .error e => .error e
       | .ok (s, r1) => match pUnions d f withs [] r1 with
         | .error e => .error e
-        | .ok (us, r2) => if us.isEmpty then .ok (.single s, r2) else .ok (.union (some withs) s us, r2)
+        | .ok (us, r2) =>
+          -- the WITH clause is recorded once on the union; every branch gets `ASTWithClause.empty()` (`set_with_clauses`)
+          if us.isEmpty then .ok (.single s, r2) else .ok (.union (some withs) (setWiths s) (us.map fun p => (p.1, setWiths p.2)), r2)
 def pUnions (d : Gen.D) : Nat → List WithTable → List (String × Select) → List Tok → R (List (String × Select))
   | 0, _, _, _ => .error .fuel
   | f+1, withs, acc, ts =>
